@@ -11,9 +11,12 @@ pub mod c09;
 pub mod c10;
 pub mod c14;
 pub mod c15;
+pub mod c16;
 pub mod c12;
 pub mod c13;
 pub mod c17;
+pub mod c18;
+pub mod c19;
 pub mod common;
 
 pub fn dispatch(id: &str, tier: Tier) -> i32 {
@@ -30,9 +33,12 @@ pub fn dispatch(id: &str, tier: Tier) -> i32 {
         "C10" => c10::run(tier).finish(),
         "C14" => c14::run(tier).finish(),
         "C15" => c15::run(tier).finish(),
+        "C16" => c16::run(tier).finish(),
         "C12" => c12::run(tier).finish(),
         "C13" => c13::run(tier).finish(),
         "C17" => c17::run(tier).finish(),
+        "C18" => c18::run(tier).finish(),
+        "C19" => c19::run(tier).finish(),
         _ => {
             eprintln!("unknown property {id}");
             2
